@@ -115,6 +115,25 @@ def _chunk(seed, lo, hi, extra):
                 fail("C06/differ-with-history-differs", history=hist)
             if ser(le) != sl or ser(re_) != sr:
                 fail("C06/diff-modified-input-tree/history")
+            # (b') the same tree objects handed to the same Differ again, also after match() and after an in-place edit
+            again = list(d.diff(le, re_))
+            if again != fresh:
+                fail("C06/same-trees-second-diff-differs", history=hist + ["diff(same objects)"])
+            d.match(le, re_)
+            again = list(d.diff(le, re_))
+            if again != fresh:
+                fail("C06/same-trees-diff-after-match-differs", history=hist + ["match(same objects)", "diff(same objects)"])
+            re_edit = xt.to_lxml(R)
+            d2 = diff.Differ(**opts)
+            list(d2.diff(le, re_edit))
+            tgt = list(re_edit.iter())[-1]
+            if isinstance(tgt.tag, str):
+                tgt.set("zz", "edited")
+            else:
+                tgt.text = (tgt.text or "") + " edited"
+            want_edit = main.diff_trees(le, re_edit, diff_options=opts)
+            if list(d2.diff(le, re_edit)) != want_edit:
+                fail("C06/diff-after-in-place-edit-differs")
             if fresh and len(hist) >= 2:
                 st.nontriv((desc["left"], desc["right"], desc["options"], tuple(hist)))
                 st.sample({**desc, "history": hist}, 2)
